@@ -18,6 +18,7 @@ import PoetryVerif.Proofs.VRangeFinalSet
 import PoetryVerif.Proofs.VRangeInterAt
 import PoetryVerif.Proofs.VRangePairwise
 import PoetryVerif.Proofs.VRangeDiffAt
+import PoetryVerif.Proofs.VRangeMergePt
 
 set_option linter.unusedSimpArgs false
 set_option linter.unusedVariables false
@@ -999,5 +1000,34 @@ theorem counterexample_difference_stable_end :
     RC.rngDifferenceRng a b = .ok res ∧ a.allows p = true ∧ b.allows p = false ∧
       res.allowsPlain p = false := by
   decide +kernel
+
+/-- **`intersect` at a probe when members may be POINTS (`Version` members inside unions), outside `RegB`, without
+`NoPoint`**.  `RC.MSem c p`: `c` is a range member carrying the per-probe facts (`VRange.PSem0`: probe regular for
+an exclusive-or-stable lower end and for an inclusive upper end, bounds non-local) or a `Version` the probe is
+regular for.  For operands sorted as `VersionUnion.of` leaves them, whenever `intersect` returns, every member of the
+result is again of the class (two inclusive ends on one key give a point — e.g. `<1.dev0 || ==2.dev0` from
+`!=1.*, <=2.dev0`) and the result admits the probe exactly when both operands do. -/
+theorem intersect_at_probe_points (p : Version) (hp : p.wf = true) (a b c : VC)
+    (hsa : SortedRC a.flatten) (hsb : SortedRC b.flatten)
+    (ha : ∀ x ∈ a.flatten, x.MSem p) (hb : ∀ x ∈ b.flatten, x.MSem p) (h : VC.intersect a b = .ok c) :
+    (∀ x ∈ c.flatten, x.MSem p) ∧ c.allowsPlain p = (a.allowsPlain p && b.allowsPlain p) :=
+  VC.intersect_atM p hp a b c hsa hsb ha hb h
+
+/-- **`VersionUnion.of` at a probe when members may be points, outside `RegB`**: whenever it returns, every member
+of the result is of the class (a point touching an excluded end of a range makes that end inclusive; a point inside
+a range or equal to another point is absorbed) and the result admits the probe exactly when an input does -/
+theorem union_of_at_probe_points (p : Version) (hp : p.wf = true) (l : List RC) (res : VC)
+    (hm : ∀ c ∈ l, c.MSem p) (h : unionOfFlat l = .ok res) :
+    (∀ c ∈ res.flatten, c.MSem p) ∧ res.allowsPlain p = anyAllows l p :=
+  unionOfFlat_atM p hp l res h hm
+
+/-- one merge step, the four member shapes: the member `rcUnionSingle` returns is of the class and exact -/
+theorem union_step_at_probe_points (p : Version) (hp : p.wf = true) (x y u : RC) (hx : x.MSem p) (hy : y.MSem p)
+    (h : rcUnionSingle x y = .ok (some u)) : u.MSem p ∧ u.allows p = (x.allows p || y.allows p) :=
+  rcUnionSingle_at p hp x y u hx hy h
+
+/-- the hypotheses are satisfiable with a point member: `==2.dev0` at the probe `2.dev0` -/
+example : let v := Version.mk' 0 [2] none none (some ⟨.dev, 0⟩) none
+    (RC.ver v).MSem v := Or.inr ⟨_, rfl, by decide, Or.inl rfl⟩
 
 end Poetry.C05
